@@ -9,7 +9,8 @@
    - hour of week, occupancy split: features.py compute_time_features / compute_occupancy_feature and the
      two caltrack_hourly_*_feature_processor functions of model.py.
    Definitions only; proofs are in Proofs/CalTrackProofs.v. *)
-From Coq Require Import ZArith QArith Qminmax List Bool String PrimFloat.
+From Coq Require Import ZArith QArith Qminmax List Bool String Ascii PrimFloat.
+From Coq Require Uint63.
 From V Require Import Generated.CalTrackTables.
 Import ListNotations.
 
@@ -91,6 +92,29 @@ Definition prediction_terms (fit_type : string) (m : Z) : list (string * Q) :=
 
 Definition prediction_segment (fit_type : string) (m : Z) : option string :=
   option_map fst (singleton (prediction_terms fit_type m)).
+
+(* the same with the two things SegmentedModel.predict also depends on:
+   - `present`: the local months that occur in the index handed to predict -- segment_time_series(...,
+     drop_zero_weight_segments=True) keeps only the columns whose weights sum to more than zero over that index;
+   - `fitted`: the names of the segment models the fitted model holds -- model_lookup.get(name) is None for a
+     prediction segment whose fitted model is absent, and such a segment is skipped *)
+Definition mem_str (x : string) (l : list string) : bool := existsb (String.eqb x) l.
+Definition kept_segment (present : list Z) (s : seg) : bool :=
+  existsb (fun m' => negb (Qle_bool (seg_weight s m') 0%Q)) present.
+Definition prediction_terms_on (present : list Z) (fitted : list string) (fit_type : string) (m : Z) : list (string * Q) :=
+  match assoc fit_type prediction_info with
+  | None => []
+  | Some (ptype, mapping) =>
+      flat_map (fun s =>
+                  let w := seg_weight s m in
+                  if Qle_bool w 0%Q then []
+                  else match fitted_name mapping (seg_name s) with
+                       | Some f => if mem_str f fitted then [(f, w)] else []
+                       | None => []
+                       end) (filter (kept_segment present) (tbl ptype))
+  end.
+Definition prediction_segment_on (present : list Z) (fitted : list string) (fit_type : string) (m : Z) : option string :=
+  option_map fst (singleton (prediction_terms_on present fitted fit_type m)).
 
 Section PredictValue.
   (* what a fitted segment model answers for an hour is left abstract *)
@@ -183,6 +207,21 @@ Section Bins.
   Definition sum (l : list A) : A := fold_right add zero l.
 End Bins.
 
+(* the endpoint list a feature processor uses: bins[segment].index[bins[segment]].tolist(), i.e. the candidate
+   endpoints (fit_temperature_bins default_bins, regenerated) whose keep-flag is set, in candidate order *)
+Fixpoint select {A} (flags : list bool) (l : list A) : list A :=
+  match flags, l with
+  | b :: flags', x :: l' => if b then x :: select flags' l' else select flags' l'
+  | _, _ => []
+  end.
+Definition endpoints_of_flags (flags : list bool) : list Q := select flags default_bins.
+Definition endpoints_of_flags_f (flags : list bool) : list float := select flags default_bins_f.
+(* the binary64 value of a rational num/den (exact when the rational is a double with a numerator below 2^53):
+   used to state that the two regenerated candidate lists are the same numbers *)
+Definition Z2F (z : Z) : float :=
+  if Z.ltb z 0 then PrimFloat.opp (PrimFloat.of_uint63 (Uint63.of_Z (Z.opp z))) else PrimFloat.of_uint63 (Uint63.of_Z z).
+Definition Q2F (q : Q) : float := PrimFloat.div (Z2F (Qnum q)) (Z2F (Zpos (Qden q))).
+
 (* exact rationals *)
 Definition Qltb (a b : Q) : bool := negb (Qle_bool b a).
 Definition QOps : numops :=
@@ -242,3 +281,52 @@ Fixpoint increasing (e : list Q) : Prop :=
 
 (* compute_time_features: dow_feature * 24 + hod_feature (dayofweek: Monday = 0) *)
 Definition hour_of_week (dow hour : Z) : Z := (dow * 24 + hour)%Z.
+
+(* ------------------------------------------------------------------------------------------------ *)
+(* 5. the month under which the wrapper files a fitted segment's uncertainty figures                 *)
+(* ------------------------------------------------------------------------------------------------ *)
+
+(* str.replace(a, b): every non-overlapping occurrence, left to right (fuel = length of the string) *)
+Fixpoint drop_chars (n : nat) (s : string) : string :=
+  match n, s with
+  | S n', String _ r => drop_chars n' r
+  | _, _ => s
+  end.
+Fixpoint replace_fuel (fuel : nat) (a b s : string) : string :=
+  match fuel with
+  | O => s
+  | S fuel' =>
+      match s with
+      | EmptyString => EmptyString
+      | String c r =>
+          if String.prefix a s then String.append b (replace_fuel fuel' a b (drop_chars (String.length a) s))
+          else String c (replace_fuel fuel' a b r)
+      end
+  end.
+Definition str_replace (a b s : string) : string :=
+  match a with EmptyString => s | _ => replace_fuel (String.length s) a b s end.
+(* str.split(sep) for a one-character separator *)
+Fixpoint str_split (sep : ascii) (s : string) : list string :=
+  match s with
+  | EmptyString => [EmptyString]
+  | String c r =>
+      if Ascii.eqb c sep then EmptyString :: str_split sep r
+      else match str_split sep r with
+           | [] => [String c EmptyString]
+           | h :: t => String c h :: t
+           end
+  end.
+(* k.replace(A, B).split(SEP)[I]; None = IndexError *)
+Definition month_key (k : string) : option string :=
+  nth_error (str_split wrapper_key_sep (str_replace (fst wrapper_key_replace) (snd wrapper_key_replace) k)) wrapper_key_index.
+(* model_month_dict = {month_key k : k for k in fitted names} (a later k overwrites an earlier one with the same key);
+   _autocorr_unc_vars[month_dict[abbr]] takes n and n_prime from model_metrics[model_month_dict[abbr]] and the mean
+   and MSE from the hours of that calendar month.  The fitted segment filed under month m: *)
+Definition unc_segment (names : list string) (m : Z) : option string :=
+  fold_left (fun acc k => match month_key k with
+                          | Some a => match assoc a wrapper_month_dict with
+                                      | Some n => if Z.eqb n m then Some k else acc
+                                      | None => acc
+                                      end
+                          | None => acc
+                          end) names None.
